@@ -13,8 +13,9 @@ def ErrsSat (E : Err P → Prop) (st : St P) : Prop := ∀ e ∈ st.errors, E e
 def InlOk (E : Err P → Prop) (inl : P → St P → Except (Err P) Nat × St P) (q : P) : Prop :=
   ∀ st, ErrsSat E st → ErrsSat E (inl q st).2 ∧ ∀ e, (inl q st).1 = .error e → E e
 
-theorem tryInline_errs (E : Err P → Prop) (hnf : ∀ q, E (.notFound q))
+theorem tryInline_errs (E : Err P → Prop)
     (inl : P → St P → Except (Err P) Nat × St P) (isEntry : Bool) (s : Site P)
+    (hnf : ∀ q, s.target = .notFound q → (isEntry && s.shadowed) = false → E (.notFound q))
     (hinl : ∀ q, s.target = .file q → (isEntry && s.shadowed) = false → InlOk E inl q) (st : St P)
     (h : ErrsSat E st) :
     ErrsSat E (tryInline inl isEntry s st).2 := by
@@ -29,7 +30,8 @@ theorem tryInline_errs (E : Err P → Prop) (hnf : ∀ q, E (.notFound q))
       simp at he
       rcases he with he | he
       · exact h e he
-      · subst he; exact hnf _
+      · rename_i q0 hq0
+        subst he; exact hnf _ hq0 hsh'
     · rename_i p hp
       split
       · exact h
@@ -46,8 +48,9 @@ theorem tryInline_errs (E : Err P → Prop) (hnf : ∀ q, E (.notFound q))
           · exact this.1 e' he'
           · subst he'; exact this.2 _ rfl
 
-theorem visit_errs (E : Err P → Prop) (hnf : ∀ q, E (.notFound q))
+theorem visit_errs (E : Err P → Prop)
     (inl : P → St P → Except (Err P) Nat × St P) (isEntry : Bool) (sites : List (Site P))
+    (hnf : ∀ s ∈ sites, ∀ q, s.target = .notFound q → (isEntry && s.shadowed) = false → E (.notFound q))
     (hinl : ∀ s ∈ sites, ∀ q, s.target = .file q → (isEntry && s.shadowed) = false → InlOk E inl q) (st : St P)
     (h : ErrsSat E st) :
     ErrsSat E (visit inl isEntry sites st).2 := by
@@ -56,14 +59,19 @@ theorem visit_errs (E : Err P → Prop) (hnf : ∀ q, E (.notFound q))
   | cons s rest ih =>
     simp only [visit]
     apply ih
+    · intro s' hs'; exact hnf s' (List.mem_cons_of_mem _ hs')
     · intro s' hs'; exact hinl s' (List.mem_cons_of_mem _ hs')
-    · exact tryInline_errs E hnf inl isEntry s (hinl s List.mem_cons_self) st h
+    · exact tryInline_errs E inl isEntry s (hnf s List.mem_cons_self) (hinl s List.mem_cons_self) st h
 
 /-- Generic invariant of the walk: `Cond n stack p` is what the caller knows when it calls
 `inlineRequire G n stack p`. -/
 theorem inlineRequire_errs (G : Graph P) (E : Err P → Prop) (Cond : Nat → List P → P → Prop)
-    (hnf : ∀ q, E (.notFound q)) (hmissing : ∀ p, E (.missing p)) (hparse : ∀ p, E (.parse p))
-    (hbad : ∀ p, E (.badExtension p)) (hnoret : ∀ p, E (.noReturn p)) (hmany : ∀ p, E (.manyReturn p))
+    (cnode : ∀ n stack p, Cond (n + 1) stack p → indexOf? p stack = none →
+      (G.get p = none → E (.missing p)) ∧ (G.get p = some .parseError → E (.parse p)) ∧
+      (G.get p = some .badExtension → E (.badExtension p)) ∧
+      (∀ sites, G.get p = some (.lua sites .noReturn) → E (.noReturn p)) ∧
+      (∀ sites, G.get p = some (.lua sites .many) → E (.manyReturn p)) ∧
+      (∀ sites ret, G.get p = some (.lua sites ret) → ∀ s ∈ sites, ∀ q, s.target = .notFound q → E (.notFound q)))
     (c0 : ∀ stack p, Cond 0 stack p → E .fuel)
     (c1 : ∀ n stack p i, Cond (n + 1) stack p → indexOf? p stack = some i → E (.cyclic (stack.drop i ++ [p])))
     (c2 : ∀ n stack p sites ret, Cond (n + 1) stack p → indexOf? p stack = none →
@@ -82,18 +90,23 @@ theorem inlineRequire_errs (G : Graph P) (E : Err P → Prop) (Cond : Nat → Li
       · rename_i i hi
         exact ⟨h, fun e he => by simp at he; subst he; exact c1 n stack p i hc hi⟩
       · rename_i hidx
+        have hn := cnode n stack p hc hidx
         split
-        · exact ⟨h, fun e he => by simp at he; subst he; exact hmissing p⟩
-        · exact ⟨h, fun e he => by simp at he; subst he; exact hparse p⟩
-        · exact ⟨h, fun e he => by simp at he; subst he; exact hbad p⟩
+        · rename_i hget
+          exact ⟨h, fun e he => by simp at he; subst he; exact hn.1 hget⟩
+        · rename_i hget
+          exact ⟨h, fun e he => by simp at he; subst he; exact hn.2.1 hget⟩
+        · rename_i hget
+          exact ⟨h, fun e he => by simp at he; subst he; exact hn.2.2.1 hget⟩
         · exact ⟨h, fun e he => by simp at he⟩
         · rename_i sites ret hget
           have hv : ErrsSat E (visit (inlineRequire G n (stack ++ [p])) false sites st).2 :=
-            visit_errs E hnf _ false sites
+            visit_errs E _ false sites
+              (fun s hs q hq _ => hn.2.2.2.2.2 sites ret hget s hs q hq)
               (fun s hs q hq _ => ih (stack ++ [p]) q (c2 n stack p sites ret hc hidx hget s hs q hq)) st h
           split
-          · exact ⟨hv, fun e he => by simp at he; subst he; exact hnoret p⟩
-          · exact ⟨hv, fun e he => by simp at he; subst he; exact hmany p⟩
+          · exact ⟨hv, fun e he => by simp at he; subst he; exact hn.2.2.2.1 sites hget⟩
+          · exact ⟨hv, fun e he => by simp at he; subst he; exact hn.2.2.2.2.1 sites hget⟩
           · exact ⟨hv, fun e he => by simp at he⟩
 
 /-! ### the graph relations -/
